@@ -3,6 +3,9 @@
    every outcome; on a mismatch it evaluates the property predicates (Model.prop_exec_ok /
    prop_batch_tail) on the implementation's own trace to decide viol / diff. *)
 
+exception Notrun of string
+exception Viol of string
+
 let fields c s = String.split_on_char c s
 
 let ctype_of = function "i" -> TInt | "b" -> TBigInt | "t" -> TText | _ -> TBlob
@@ -90,6 +93,9 @@ let err_of s : err =
   | ["idchanged"] -> E_IdChanged | ["idmissing"] -> E_IdMissingInBatch | ["unprepared"] -> E_Unprepared
   | ["unexpected"] -> E_Unexpected | ["parse"] -> E_Parse
   | ["db"; c] -> E_Db (n_of_hex c)
+  | ("exec" | "other" | "page") :: _ | ["rows-missing"] | ["no-error-reported"] ->
+    (* request timeout, empty plan, broken connection, …: the environment, not the property *)
+    raise (Notrun ("client call ended with " ^ s))
   | _ -> E_Db (n_of_hex "ffffffff")     (* a class the model never produces: always a mismatch *)
 
 let rec chunk k l =
@@ -150,13 +156,13 @@ let verdict case impl =
                 | Some i -> (bytes_of_hexstr (String.sub v 0 i), cols_of_string (String.sub v (i + 1) (String.length v - i - 1)))
                 | None -> failwith "bad version") (fields ',' vers)) }
         | _ -> failwith ("bad stmt " ^ t)) stoks) in
-    let dummy = { late = false; sid = []; vers = [| ([], []) |] } in
+    let dummy = { late = false; sid = []; vers = [| ([n_of_int 0], []) |] } in
     let sd i = nth_default sdefs (int_of_nat i) dummy in
     let st : nat -> stmt = fun i ->
       let k = int_of_nat i in
       if k < ns then { s_id = (sd i).sid; s_text = n_of_int (k + 1) }
       else { s_id = [n_of_int 255; n_of_int k]; s_text = n_of_int (100000 + k) } in
-    let ver i v = nth_default (sd i).vers (int_of_n v) ([], []) in
+    let ver i v = nth_default (sd i).vers (int_of_n v) ([n_of_int 0], []) in
     let d : schema = {
       cols_of = (fun i v -> snd (ver i v));
       mid_of = (fun i v -> fst (ver i v));
@@ -169,30 +175,45 @@ let verdict case impl =
       { n_ext = ext; n_prep = (fun _ -> true); n_ver = (fun _ -> N0); n_salt = (fun _ -> N0) } in
     (* observations *)
     let obs = ref impl in
-    let next_obs () = match !obs with x :: r -> obs := r; x | [] -> failwith "missing observation" in
-    let forced = ref false in
+    let next_obs () = match !obs with x :: r -> obs := r; x | [] -> raise (Notrun "runner produced fewer observations than the case has calls") in
+    let forced = ref false and has_par = ref false in
     let parse_obs node =
       match fields '/' (next_obs ()) with
       | ["O"; nd; xs; out] ->
-        if xs = "TRACE-MISMATCH" then failwith "trace-mismatch: a user frame was not seen by the handler";
-        if int_of_string ("0x" ^ nd) <> node then failwith "request arrived at another node than the case names";
+        if xs = "TRACE-MISMATCH" then raise (Notrun "a user frame bypassed the handler (trace mismatch)");
+        let nd = int_of_string ("0x" ^ nd) in
+        let out = obs_out_of out in
+        (* exchanges of ONE call on different nodes: "re-prepares that statement ON THAT NODE" fails *)
+        if nd = 0xfe then raise (Viol "re-preparation / resend went to another node than the first EXECUTE");
+        if nd <> node then raise (Notrun "the pinned load-balancing policy did not route the call to the named node");
         let xl = if xs = "-" then [] else List.map (fun e ->
             match String.index_opt e '>' with
             | Some i ->
               let (r, enc, pay) = resp_of_ext ext (String.sub e (i + 1) (String.length e - i - 1)) in
               { x_req = request_of (String.sub e 0 i); x_resp = r; x_enc = enc; x_pay = pay }
             | None -> failwith "bad exchange") (fields ';' xs) in
-        (xl, obs_out_of out)
+        (xl, out)
       | _ -> failwith "bad observation" in
-    let tr = List.concat_map (fun t ->
+    let xargs_of s uc psize paging value cons serial ts =
+      { xa_stmt = nat_of_int (int_of_string ("0x" ^ s)); xa_use_cached = (uc = "1");
+        xa_values = bytes_of_hexstr value; xa_cons = n_of_hex cons; xa_serial = on_of serial;
+        xa_page_size = on_of psize; xa_paging = paging; xa_ts = oz_of ts } in
+    (* items: Seq op | Par (op, op) *)
+    let pending_par = ref 0 in
+    let items = ref [] in
+    let par_buf = ref [] in
+    let push_op o =
+      if !pending_par > 0 then begin
+        par_buf := o :: !par_buf; decr pending_par;
+        if !pending_par = 0 then (match !par_buf with [b; a] -> items := `Par (a, b) :: !items; par_buf := [] | _ -> failwith "bad Y")
+      end else items := `Seq o :: !items in
+    List.iter (fun t ->
         match fields '/' t with
         | ["X"; s; node; uc; psize; paging; value; cons; serial; ts; _pseed; _haspg] ->
           let node = int_of_string ("0x" ^ node) in
-          let a = { xa_stmt = nat_of_int (int_of_string ("0x" ^ s)); xa_use_cached = (uc = "1");
-                    xa_values = bytes_of_hexstr value; xa_cons = n_of_hex cons; xa_serial = on_of serial;
-                    xa_page_size = on_of psize; xa_paging = ob_of paging; xa_ts = oz_of ts } in
+          let a = xargs_of s uc psize (ob_of paging) value cons serial ts in
           let (xl, out) = parse_obs node in
-          [TO_exec (nat_of_int node, ext, a, xl, out)]
+          push_op (TO_exec (nat_of_int node, ext, a, xl, out))
         | ["I"; s; node; uc; psize; value; cons; serial; ts; _pseed; _pages] ->
           (* execute_iter: one model call per page the pager fetched; page j+1 starts from the
              paging state the answer to page j carried *)
@@ -200,81 +221,138 @@ let verdict case impl =
           let k = (match fields '/' (next_obs ()) with
               | ["OI"; k] -> int_of_string ("0x" ^ k)
               | _ -> failwith "missing OI token") in
-          if k < 1 then failwith "execute_iter sent nothing";
-          let paging = ref None and more = ref true and acc = ref [] in
+          if k < 1 then raise (Notrun "execute_iter sent nothing");
+          let paging = ref None and more = ref true in
           for _j = 1 to k do
             if not !more then failwith "the pager fetched a page after the last one";
-            let a = { xa_stmt = nat_of_int (int_of_string ("0x" ^ s)); xa_use_cached = (uc = "1");
-                      xa_values = bytes_of_hexstr value; xa_cons = n_of_hex cons; xa_serial = on_of serial;
-                      xa_page_size = on_of psize; xa_paging = !paging; xa_ts = oz_of ts } in
+            let a = xargs_of s uc psize !paging value cons serial ts in
             let (xl, out) = parse_obs node in
             (match List.rev xl with
              | { x_resp = RRows b; _ } :: _ -> paging := b.rb_paging; more := (b.rb_paging <> None)
              | _ -> more := false);
-            acc := TO_exec (nat_of_int node, ext, a, xl, out) :: !acc
-          done;
-          List.rev !acc
-        | ["B"; node; ty; cons; serial; ts; items] ->
+            push_op (TO_exec (nat_of_int node, ext, a, xl, out))
+          done
+        | ["B"; node; ty; cons; serial; ts; its] ->
           let node = int_of_string ("0x" ^ node) in
           let item i =
             if i.[0] = 'p' then (match fields '.' (strip1 i) with
                 | [s; v] -> BI_prep (nat_of_int (int_of_string ("0x" ^ s)), bytes_of_hexstr v)
                 | _ -> failwith "bad item")
             else BI_query (n_of_hex (strip1 i)) in
-          let b = { ba_items = List.map item (fields '+' items); ba_type = n_of_hex ty; ba_cons = n_of_hex cons;
+          let b = { ba_items = List.map item (fields '+' its); ba_type = n_of_hex ty; ba_cons = n_of_hex cons;
                     ba_serial = on_of serial; ba_ts = oz_of ts } in
           let (xl, out) = parse_obs node in
-          [TO_batch (nat_of_int node, ext, b, xl, out)]
+          push_op (TO_batch (nat_of_int node, ext, b, xl, out))
         | ["E"; node; kind; s; arg] ->
           let s = nat_of_int (int_of_string ("0x" ^ s)) in
           let e = match kind with
             | "p" -> EV_prepared s | "e" -> EV_evicted s | "s" -> EV_schema (s, n_of_hex arg)
             | _ -> EV_idchange (s, n_of_hex arg) in
-          [TO_event (nat_of_int (int_of_string ("0x" ^ node)), e)]
-        | "F" :: _ -> forced := true; []
-        | _ -> failwith ("bad op " ^ t)) optoks in
+          push_op (TO_event (nat_of_int (int_of_string ("0x" ^ node)), e))
+        | ["Y"; _; _] -> has_par := true; pending_par := 2
+        | "F" :: _ -> forced := true
+        | _ -> failwith ("bad op " ^ t)) optoks;
+    let items = List.rev !items in
+    let tr = List.concat_map (function `Seq o -> [o] | `Par (a, b) -> [a; b]) items in
     let show_v = function
       | V_ok _ -> "ok"
       | V_req (pos, q) -> Printf.sprintf "request#%d model=%s" (int_of_nat pos) (match q with None -> "none" | Some q -> string_of_request q)
       | V_out cs -> "outcome model=" ^ string_of_cstate cs
       | V_srv (pos, _) -> Printf.sprintf "mock-answer#%d differs from the specification node" (int_of_nat pos)
       | V_stuck -> "stuck" in
-    (* the property predicate on every client op of the implementation's own trace *)
-    let prop_failures () =
-      List.concat (List.mapi (fun i o ->
-          match o with
-          | TO_exec (_, e, a, xs, out) ->
-            let faithful_expected = (not !forced) && (e || not a.xa_use_cached) in
-            if prop_exec_ok st faithful_expected a xs out then [] else [i]
-          | TO_batch (_, _, b, xs, out) ->
-            if prop_batch_tail st b (mk_batch_frame st b) xs out then [] else [i]
-          | TO_event _ -> []) tr) in
-    let check_prop = (try Sys.getenv "C14_CHECK_PROP" = "1" with Not_found -> false) in
-    (match g_accept st (ginit init) O tr with
-     | (_, V_ok _) ->
-       if check_prop && prop_failures () <> [] then "error property-predicate-rejects-accepted-trace" else
-       if !forced then "ok" else
+    let an0 = { an_latest = (fun i -> (init i).m_cols); an_id = (fun i -> (init i).m_id); an_reprep = (fun _ -> false) } in
+    let spec_history = (not !forced) && (not !has_par) in
+    (* the property predicate on one client op of the implementation's own trace *)
+    let prop_ok o =
+      match o with
+      | TO_exec (_, e, a, xs, out) ->
+        prop_exec_ok st ((not !forced) && (e || not a.xa_use_cached)) a xs out
+      | TO_batch (_, _, b, xs, out) -> prop_batch_tail st b (mk_batch_frame st b) xs out
+      | TO_event _ -> true in
+    (* the announced-metadata bookkeeping (decoded columns, presented id, skip flag) up to op k *)
+    let bookkeeping upto =
+      if not spec_history then [] else
+        let rec firstn k l = if k <= 0 then [] else match l with x :: r -> x :: firstn (k - 1) r | [] -> [] in
+        stale_check st (nat_of_int ns) true an0 O (firstn upto tr) in
+    (* run the model over the items *)
+    let rec run g c idx = function
+      | [] -> `Fine g
+      | `Seq o :: rest ->
+        (match g_accept st g (nat_of_int c) [o] with
+         | (_, V_ok g') -> run g' (c + 1) (idx + 1) rest
+         | (_, v) -> `Bad (idx, [o], show_v v))
+      | `Par (a, b) :: rest ->
+        let pc id o = match o with
+          | TO_exec (_, e, ar, xs, out) -> { pc_id = nat_of_int id; pc_ext = e; pc_args = ar; pc_started = false; pc_xs = xs; pc_out = out }
+          | _ -> failwith "Y needs two X ops" in
+        (* any interleaving of the two calls' client-side steps after which the rest of the history runs *)
+        let fine g' = (match run g' (c + 2) (idx + 2) rest with `Fine _ -> true | `Bad _ -> false) in
+        (match g_par (nat_of_int 80) st fine g [] [pc c a; pc (c + 1) b] with
+         | Some g' -> run g' (c + 2) (idx + 2) rest
+         | None ->
+           (match g_par (nat_of_int 80) st (fun _ -> true) g [] [pc c a; pc (c + 1) b] with
+            | Some g' -> run g' (c + 2) (idx + 2) rest      (* reports the later op that no interleaving explains *)
+            | None -> `Bad (idx, [a; b], "no interleaving of the two concurrent calls is a run of the model"))) in
+    (match run (ginit init) 0 0 items with
+     | `Bad (idx, ops, why) ->
+       (* model and implementation differ on these ops: property failure or broken correspondence? *)
+       let bad_book = List.filter (fun (i, cl) -> int_of_nat i >= idx && cl <> Some true) (bookkeeping (idx + List.length ops)) in
+       if List.exists (fun o -> not (prop_ok o)) ops then
+         Printf.sprintf "viol op=%d property predicate fails on the implementation's trace; model mismatch: %s" idx why
+       else if bad_book <> [] then
+         Printf.sprintf "viol op=%d %s; model mismatch: %s" idx
+           (match snd (List.hd bad_book) with
+            | None -> "an EXECUTE presents another metadata id / skip flag than the most recently announced metadata asks for"
+            | _ -> "rows decoded with columns other than the most recently announced") why
+       else Printf.sprintf "diff op=%d %s" idx why
+     | `Fine gfinal ->
+       (* accepted by the generic system.  Property predicate before every ok. *)
+       let bad = List.concat (List.mapi (fun i o -> if prop_ok o then [] else [i]) tr) in
+       if bad <> [] then
+         Printf.sprintf "viol ops=%s property predicate fails on a trace the model accepts" (String.concat "," (List.map string_of_int bad))
+       else if not spec_history then begin
+         (* note when the cell ended on an older announcement than the newest one (concurrent write-back) *)
+         let wb = ref false in
+         for s = 0 to ns - 1 do
+           match gfinal.g_ann (nat_of_int s) with
+           | back :: newer :: older ->
+             if back.m_id <> newer.m_id && (List.exists (fun m -> m.m_id = back.m_id) older || (init (nat_of_int s)).m_id = back.m_id)
+             then wb := true
+           | _ -> ()
+         done;
+         if !wb then "ok note=stale-writeback" else "ok"
+       end else
          (match s_accept d st (nat_of_int ns) (sinit init nodes) O tr with
           | (_, V_ok _) ->
             (* model = implementation = specification nodes.  The model follows the code AS IT IS;
-               the property's own bookkeeping (columns most recently announced for the statement)
+               the property's own bookkeeping (metadata most recently announced for the statement)
                is evaluated on the implementation's trace: known finding F17 *)
-            let an0 = { an_latest = (fun i -> (init i).m_cols); an_reprep = (fun _ -> false) } in
-            (match stale_check st (nat_of_int ns) an0 O tr with
+            let ncalls = nat_of_int (List.length tr) in
+            let decoded i = match List.nth tr (int_of_nat i) with
+              | TO_exec (_, _, _, _, OB_rows (c, _, _, _)) -> c | _ -> [] in
+            (match bookkeeping (List.length tr) with
              | [] -> "ok"
              | hits ->
                let idx l = String.concat "," (List.map (fun (i, _) -> string_of_int (int_of_nat i)) l) in
-               let outside = List.filter (fun (_, c) -> not c) hits in
+               let in_class (i, cl) = cl = Some true && known_classb st gfinal ncalls i (decoded i) in
+               let outside = List.filter (fun h -> not (in_class h)) hits in
                if outside <> [] then
-                 Printf.sprintf "viol rows-decoded-with-columns-other-than-most-recently-announced ops=%s" (idx outside)
+                 Printf.sprintf "viol %s ops=%s"
+                   (if List.exists (fun (_, cl) -> cl = None) outside
+                    then "an EXECUTE presents another metadata id / skip flag than announced"
+                    else "rows decoded with columns other than the most recently announced") (idx outside)
                else
                  Printf.sprintf "viol class=stale-cached-metadata-without-ext ops=%s (no extension, cached metadata requested, re-preparation announced other columns)" (idx hits))
-          | (i, v) -> Printf.sprintf "error spec-system op=%d %s" (int_of_nat i) (show_v v))
-     | (i, v) ->
-       (match prop_failures () with
-        | [] -> Printf.sprintf "diff op=%d %s" (int_of_nat i) (show_v v)
-        | l -> Printf.sprintf "viol ops=%s first-model-mismatch: op=%d %s"
-                 (String.concat "," (List.map string_of_int l)) (int_of_nat i) (show_v v)))
+          | (i, v) -> Printf.sprintf "error spec-system op=%d %s" (int_of_nat i) (show_v v)))
   | _ -> "error unknown-case"
+
+let verdict case impl =
+  (* a history that could not be run (environment) is counted, never judged *)
+  match impl with
+  | "error" :: rest -> "ok notrun=" ^ String.concat "_" rest
+  | _ ->
+    (try verdict case impl with
+     | Notrun why -> "ok notrun=" ^ String.concat "_" (String.split_on_char ' ' why)
+     | Viol why -> "viol " ^ why)
 
 let () = run_lines verdict
